@@ -1912,6 +1912,11 @@ func runC16(rc *RunCtx) (*Violation, error) {
 			outcome := "failed"
 			var v *Violation
 			switch {
+			case errors.Is(res.err, io.ErrNoProgress):
+				// the harness gave up after 65536 consecutive reads that returned neither data nor an
+				// error: a consumer like io.ReadAll would spin forever - that is no "error" outcome
+				outcome = "STALLED"
+				v = rc.Fail("tamper", "reader-makes-no-progress:"+key, "%s [%s]: after %d of %d plaintext bytes the reader returns (0, nil) forever: neither data, nor the end, nor an error", mu.name, path, len(res.got), len(want))
 			case res.err != nil:
 				if len(res.got) > len(want) || !bytes.Equal(res.got, want[:len(res.got)]) {
 					v = rc.Fail("tamper", "other-bytes-before-error:"+key, "%s [%s]: the read failed (%v) but first delivered bytes that are not a prefix of the plaintext: %s", mu.name, path, res.err, pstDiff(want, res.got))
